@@ -176,6 +176,35 @@ CHECKS = {
         design_ref='DESIGN.md 5 / C10; notes/C10.md',
         technique='Coq proof (unescape round trip, state-machine round trip, per-line lexer lemmas) + extracted-model correspondence + render/load oracle',
         note=NOTE_COMMON + ' polib (third party) is modelled, not verified. Known findings D9, D14, D22, D23.'),
+    'C12': dict(
+        category='proof',
+        text='Coq theorems relating two models, the scanner model of strformat.python.FormatString and a model of CPython 3.12 unicode_format_arg_parse/format: if the parser accepts '
+             '(in the property\'s domain: no decorated %% conversion) then CPython formats the string with every argument tuple/mapping matching the reported signature; if CPython rejects '
+             'the string whatever the arguments, the parser rejects; a formattable string is rejected only for the documented reasons; only own errors. The theorem\'s weight rests on both '
+             'correspondences, which run on every check: parser model vs the real parser, and CPython model vs the live interpreter (s % args).',
+        design_ref='DESIGN.md 5 / C12; notes/C12.md',
+        technique='Coq proof (per-directive agreement lemma between two scanners) + two extracted-model correspondences + live-interpreter oracle',
+        note=NOTE_COMMON + ' The CPython-side model is hand-written from knowledge of unicodeobject.c and validated against the live interpreter, not derived from its source.'),
+    'C13': dict(
+        category='other',
+        text='Partial. perl-brace: complete Coq theorems (accept iff every "{" opens "{identifier}", reported names = identifiers, only own errors, the model scanner inspects at most 2|s|+1 '
+             'characters). python-brace: proved that acceptance implies Python\'s parser accepts and that a string Python rejects is rejected (outside the known finding D25, with refutation '
+             'witnesses), only own errors (unguarded since the D3 fix), and soundness of the type set computed for a format spec against a model of CPython format() (outside D24). Not proved: '
+             'the whole-string bookkeeping of the flat-fields formatting theorem. Linear time of the real regex is MEASURED on doubling families (it is a property of the re engine, no Gallina '
+             'model exhibits it).',
+        design_ref='DESIGN.md 5 / C13; notes/C13.md',
+        technique='Coq proof (scanner models vs declarative specs / CPython markup model) + correspondences (model vs parser, spec vs string.Formatter / str.format) + measured time growth',
+        note=NOTE_COMMON + ' Known findings D24 (pinned by tests), D25. D3, D4 fixed (01ae369, 89b000c).'),
+    'C01': dict(
+        category='other',
+        text='Partial. Proved: the conjunction of the component no-crash / totality theorems (plural evaluator and analyses, MO loader through Checker.check\'s handlers, C format parser, '
+             'header, message, date, language and charset-proposal models), re-exported in Props/C01.v so that C01 stops checking when any of them does. Explored on the real CLI, not proved: '
+             'exit status 0, empty stderr, line grammar and a time cap for generated files of every kind (hostile catalogs, every component\'s malformed stream in the slot that reaches it, '
+             'escape spellings, duplicate header fields, every odd codec name, byte noise, mutated files, MO truncations and word corruptions) under -l / --file-type / -j, and at most quadratic '
+             'growth on 28 pumped families.',
+        design_ref='DESIGN.md 5 / C01',
+        technique='Coq proof (aggregate of component totality theorems) + CLI fuzz with timing',
+        note=NOTE_COMMON + ' Recursion limit, regex cost, memory and the exit status are runtime behaviour no model here exhibits. Known findings D11, D12, D14.'),
 }
 
 NA_REASON = 'check not built yet (work in progress; see DESIGN.md section 8 for build order)'
